@@ -53,6 +53,9 @@ def setup(ctx):
 
 def seq(rng, values):
     k = rng.random()
+    if k < 0.08 and all(isinstance(v, (int, float)) for v in values):
+        import pandas as pd
+        return pd.Series(list(values), dtype=float)          # a column of a table: an iterable of floats like any other
     if k < 0.34:
         return list(values)
     if k < 0.67:
